@@ -144,6 +144,9 @@ func genC06(r *Rng, tier string) []Case {
 			}
 		}
 	}
+	for i := 0; i < 2; i++ {
+		cs = append(cs, Case{"bsig_two_bundles", []Sx{Zi(int64(i))}})
+	}
 	// signer histories
 	hosts := []string{"example.com", "a.test", "www.example.org", "uncovered.invalid"}
 	nb := 8
